@@ -180,6 +180,8 @@ def check_interleavings(threads: List[List[ThreadPath]], initial: dict, after: O
             viol = z3.Or(viol, p_[4] != q_[4])
         for u in uses:
             viol = z3.Or(viol, u[4] == 0)  # part uploaded / completed without an upload id
+            # ... or under an id that no upload initiated here carries (left over from an earlier upload)
+            viol = z3.Or(viol, z3.And(*[u[4] != c_[4] for c_ in creates]) if creates else z3.BoolVal(True))
         S.add(viol)
         res["queries"] += 1
         r = S.check()
